@@ -7,6 +7,11 @@ use rustc_hash::FxHashMap;
 /// Exports a system.  With `positional`, the i-th state symbol is called "s<i>" and the j-th input "i<j>"
 /// (two systems that are compared are bound by position, never by name).
 pub fn export_system(ctx: &Context, sys: &TransitionSystem, positional: bool) -> J {
+    export_system_extra(ctx, sys, positional, &[])
+}
+
+/// like `export_system`; `extra` expressions are added to the node table and their indices returned under "extra"
+pub fn export_system_extra(ctx: &Context, sys: &TransitionSystem, positional: bool, extra: &[ExprRef]) -> J {
     let mut roots: Vec<ExprRef> = vec![];
     for s in sys.states.iter() {
         roots.push(s.symbol);
@@ -17,6 +22,7 @@ pub fn export_system(ctx: &Context, sys: &TransitionSystem, positional: bool) ->
     roots.extend(sys.outputs.iter().map(|o| o.expr));
     roots.extend(sys.bad_states.iter().cloned());
     roots.extend(sys.constraints.iter().cloned());
+    roots.extend(extra.iter().cloned());
     let mut pos: FxHashMap<ExprRef, String> = FxHashMap::default();
     if positional {
         for (j, i) in sys.inputs.iter().enumerate() { pos.insert(*i, format!("i{}", j + 1)); }
@@ -46,7 +52,8 @@ pub fn export_system(ctx: &Context, sys: &TransitionSystem, positional: bool) ->
     let outputs: Vec<J> = sys.outputs.iter().map(|o| json!({"name": ctx[o.name], "expr": nx()})).collect();
     let bads: Vec<usize> = sys.bad_states.iter().map(|_| nx()).collect();
     let constraints: Vec<usize> = sys.constraints.iter().map(|_| nx()).collect();
-    json!({"name": sys.name, "nodes": nodes, "states": states, "inputs": inputs, "outputs": outputs, "bads": bads, "constraints": constraints})
+    let extra_ix: Vec<usize> = extra.iter().map(|_| nx()).collect();
+    json!({"name": sys.name, "nodes": nodes, "states": states, "inputs": inputs, "outputs": outputs, "bads": bads, "constraints": constraints, "extra": extra_ix})
 }
 
 #[derive(Clone)]
